@@ -29,7 +29,7 @@ TECHNIQUE = ("fault enumeration at runtime: failpoint (and SIGKILL in the thorou
 RULE = ("Case = one (old-format file, interruption point k) pair, k = 0 (uninterrupted) .. n (every write-open of the upgrade); all k of a "
         "file are enumerated.  Files: header version in {1.0.0, 1.1.0, 1.1.1, 1.2.0} x file id present/absent x 0-3 alias range dimensions "
         "(with/without unit and label) x 0-4 sections (nested) x 0-6 properties each over {int, float, text, bool} x 0-5 values x "
-        "uncertainty {none, constant, varying} x reference / filename / encoder / checksum {unset, partly set}; blocks with arrays of "
+        "uncertainty {none, constant, varying, varying by 1e-9 absolute / 3e-6 relative} x reference / filename / encoder / checksum {unset, partly set}; blocks with arrays of "
         "several element types, sampled / set / range descriptors, groups, tags.  Distinct by (version, id present, number of alias "
         "dimensions, property type multiset, extras pattern, step kind at k); trivial = none.")
 ASSUMPTIONS = ["properties are compared order-insensitively by (section path, name); ids and timestamps of converted objects (properties, dimension "
@@ -137,11 +137,12 @@ def build_old_file(nix, np, rng, path):
             if compound:
                 dt = np.dtype([("value", vt), ("uncertainty", "f8"), ("reference", vs), ("filename", vs), ("encoder", vs), ("checksum", vs)])
                 arr = np.zeros(n, dtype=dt)
-                umode = rng.choice(["none", "const", "vary"])
+                umode = rng.choice(["none", "const", "vary", "vary_tiny", "vary_rel"])
                 modes = {e: rng.choice(["unset", "unset", "some", "all"]) for e in EXTRAS}
                 ex = {"uncertainty": [], "reference": [], "filename": [], "encoder": [], "checksum": []}
                 for i, v in enumerate(vals):
-                    unc = {"none": 0.0, "const": 0.5, "vary": 0.125 * (i + 1)}[umode]
+                    unc = {"none": 0.0, "const": 0.5, "vary": 0.125 * (i + 1), "vary_tiny": 1e-9 * (2 * i + 2),
+                           "vary_rel": 1.0 + 3e-6 * i}[umode]       # per-value uncertainties that differ by very little are still per-value
                     row = [v, unc]
                     ex["uncertainty"].append(unc)
                     for e in EXTRAS:
